@@ -12,7 +12,7 @@ PROPERTY = 'C18'
 RULE = ('Operands p, q from the typed grammar of the monitor kind, bounds a<=b, c<=d, one of the law schemata of the statement '
         '(not F[a,b] p = G[a,b] not p; not O[a,b] p = H[a,b] not p, also unbounded; p -> q = not p or q; F[a,b]F[c,d] p = F[a+c,b+d] p, '
         'same for once; discrete: since/until one-step expansions) instantiated as two specification texts evaluated by the same '
-        'monitor on the same trace. Oracle: the two signals are identical (exact float equality: every law is an identity of '
+        'monitor on the same trace (discrete offline, discrete online, discrete online after pastify, dense offline, dense online; dense signals include long monotone runs under wide windows). Oracle: the two signals are identical (exact float equality: every law is an identity of '
         'min/max/negation on the same numbers). Non-trivial = an operand contains a temporal operator or the trace is shorter than '
         'b+d, and the common result is not constant; distinct = distinct (law, operands, bounds, trace, kind) digests.')
 
